@@ -162,8 +162,11 @@ theorem asByteswappedTo_faithful (L : Layout) (hwf : L.wf = true) (h : Hdr) (hok
   | none => exact ⟨hsw.1, hsw.2, heq.1, heq.2⟩
   | some t =>
     by_cases ht : t = h.e
-    · simp only [asByteswappedTo, ht, if_true, copy_eq L hwf h hok, Option.getD_some]
-      exact ⟨rfl, rfl, (hdrEq_iff_vals L hwf h h hok hok).mpr rfl, (hdrEq_iff_vals L hwf h h hok hok).mpr rfl⟩
+    · have hc : asByteswappedTo L h (some t) = h := by
+        simp only [asByteswappedTo, ht, if_true]; exact copy_eq L hwf h hok
+      rw [hc]
+      exact ⟨by simp [ht], rfl, (hdrEq_iff_vals L hwf h h hok hok).mpr rfl,
+        (hdrEq_iff_vals L hwf h h hok hok).mpr rfl⟩
     · have hts : t = h.e.swap := by
         cases t <;> cases he : h.e <;> simp_all [Endian.swap]
       simp only [asByteswappedTo, ht, if_false, Option.getD_some]
